@@ -162,3 +162,42 @@ def dispatch(u):
     u.ensure(kind == "ok", f"dispatch:{members[k]}:no-raise")
     if kind == "ok":
         u.ensure(val.cls.name == expect.get(members[k]), f"dispatch:{members[k]}:class")
+
+
+def _fp_policy_unit(cls, label):
+    @unit(f"C16.{label}.update.float64", ["C16"], [PEN + ("PenaltyFilter" if "Filter" in cls else cls) + ".update"], config={"max_paths": 50})
+    def fp_unit(u):
+        """the monotonicity post-condition re-posed in IEEE double arithmetic (finite positive rho, non-NaN norms)"""
+        from pyvc import ops as _ops
+        from pyvc.interp import PyFunc
+        from pyvc.values import Opaque
+
+        F = z3.Float64()
+        rho = z3.FP(u.path.fresh_name("rho"), F)
+        u.assume(z3.And(z3.Not(z3.fpIsNaN(rho)), z3.Not(z3.fpIsInf(rho)), z3.fpGT(rho, z3.FPVal(0.0, F))))
+        params = mk_params(u)
+        params.fields["rho"] = rho
+        problem = mk_problem(u)
+        u.assume(problem.fields["num_cons"] > 0)
+        s = u.obj(PEN + cls, problem=problem, params=params, rho=rho)
+        if "Filter" in cls:
+            s.fields["entries"] = None
+            inserted = u.path.choose("filter_insert result")
+            u.it.abstract[PEN + "PenaltyFilter.filter_insert"] = lambda it, self_, a, b: inserted
+            u.it.abstract[PEN + cls + ".iterate_entry"] = lambda it, self_, itx: (Opaque("a"), Opaque("b"))
+        ynorm = z3.FP(u.path.fresh_name("ynorm"), F)
+        u.assume(z3.And(z3.Not(z3.fpIsNaN(ynorm)), z3.fpGEQ(ynorm, z3.FPVal(0.0, F))))
+        u.it.lib["numpy.linalg.norm"] = lambda it, v, ord=None: ynorm
+        nxt = u.obj("pygradflow.iterate.Iterate", y=Opaque("y"))
+        res = u.method(s, "update", Opaque("prev"), nxt)
+        nr = u.get(res, "next_rho")
+        u.ensure(z3.fpGEQ(nr, rho), "float64:next_rho>=old_rho")
+        u.ensure(z3.fpGT(nr, z3.FPVal(0.0, F)), "float64:next_rho>0")
+        u.ensure(z3.Not(z3.fpIsNaN(nr)), "float64:next_rho_is_not_NaN")
+        u.ensure(z3.fpEQ(s.fields["rho"], nr), "float64:policy_rho==reported")
+
+    return fp_unit
+
+
+_fp_policy_unit("DualNormUpdate", "DualNorm")
+_fp_policy_unit("ObjectivePenaltyFilter", "ObjectiveFilter")
